@@ -662,19 +662,28 @@ def redirMode (sign : Bytes) : Option Int :=
   else if sign == [60, 62] then some ReadWrite
   else none
 
-/-- `(*Redir).parse` -/
-def redirBody (left : Option Node) (nb : NB) : M NB := do
-  let nb : NB := match left with
-    | some l => { (nb.add l) with frm := l.frm }
-    | none => nb
+/-- start of `(*Redir).parse`: `addChild(rn, rn.Left); rn.From = rn.Left.From`. -/
+def attachLeft (left : Option Node) (nb : NB) : NB :=
+  match left with
+  | some l => { (nb.add l) with frm := l.frm }
+  | none => nb
+
+/-- the `switch sign` of `(*Redir).parse` -/
+def setMode (nb : NB) (sign : Bytes) : M NB :=
+  match redirMode sign with
+  | some m => pure { nb with f := { nb.f with mode := m } }
+  | none => do
+    error .badRedirSign
+    pure nb
+
+/-- `(*Redir).parse` after the left operand was attached -/
+def redirRest (nb : NB) : M NB := do
   let begin ← getPos
   let k ← loopFuel
   skipWhile isRedirSign k
   let pos ← getPos
   let sign ← sliceSrc begin pos
-  let nb ← (match redirMode sign with
-    | some m => pure { nb with f := { nb.f with mode := m } }
-    | none => do error .badRedirSign; pure nb)
+  let nb ← setMode nb sign
   let nb ← addSep nb
   let nb ← parseSpaces nb
   let (isFd, nb) ← parseSep nb 38
@@ -685,6 +694,10 @@ def redirBody (left : Option Node) (nb : NB) : M NB := do
     (if nb.f.flag then error .shouldBeFD else error .shouldBeFilename)
     pure nb
   else pure nb
+
+/-- `(*Redir).parse` -/
+def redirBody (left : Option Node) (nb : NB) : M NB :=
+  redirRest rec (attachLeft left nb)
 
 def filterLoop : Nat → NB → M NB
   | 0, _ => outOfFuel
@@ -956,9 +969,22 @@ def body : NT → NB → M NB
   | .mapPair => mapPairBody rec
 
 /-- The generic wrapper `parse[N](ps, n)`: records `From`, runs `n.parse`,
-records `To` and `sourceText = src[begin:pos]`.  (`From` may have been moved
-by `Redir.parse`; the text is still cut from `begin`.) -/
+records `To` and `sourceText = src[n.From:pos]`.  `From` may have been moved
+by `Redir.parse` (to the start of its left operand).
+
+This is the code after `fixes/C01-redir-sourcetext.patch`; the unchanged
+tree cut the text from `begin` (`wrapUnfixed`), which gives a `Redir` with a
+left operand a text that is not the source of its range. -/
 def wrap (nt : NT) : M Node := do
+  let begin ← getPos
+  let nb ← body rec nt { frm := begin, f := nt.init, children := [] }
+  let pos ← getPos
+  let text ← sliceSrc nb.frm pos
+  pure (.mk nt.kind nb.frm pos text nb.f nb.children)
+
+/-- `parse[N]` of the unchanged tree (before the fix): `sourceText =
+src[begin:pos]`.  Kept for the counterexample theorem. -/
+def wrapUnfixed (nt : NT) : M Node := do
   let begin ← getPos
   let nb ← body rec nt { frm := begin, f := nt.init, children := [] }
   let pos ← getPos
@@ -971,6 +997,11 @@ end Grammar
 def parseNT : Nat → NT → M Node
   | 0, _ => outOfFuel
   | fuel + 1, nt => wrap (fun nt' => parseNT fuel nt') nt
+
+/-- The parser of the unchanged tree (see `wrapUnfixed`). -/
+def parseNTUnfixed : Nat → NT → M Node
+  | 0, _ => outOfFuel
+  | fuel + 1, nt => wrapUnfixed (fun nt' => parseNTUnfixed fuel nt') nt
 
 /-! ## Entry points -/
 
